@@ -445,24 +445,59 @@ def pp_struct(name, fields, m):
     return lines
 
 
+def _gname(t, g, ref=False):
+    """type name inside the signature of a function that is generic in `g` (written T)"""
+    if g is not None and t == g:
+        return "T Referenz" if ref else "T"
+    if g is not None and is_list(t) and t[1] == g:
+        return "T Listen Referenz" if ref else "T Liste"
+    return ref_name(t) if ref else type_name(t)
+
+
 def pp_func(f, m, types):
     ps = f["params"]
-    head = "Die Funktion %s" % f["name"]
+    g = f.get("generic")
+    head = "Die generische Funktion %s" % f["name"] if g is not None else "Die Funktion %s" % f["name"]
     if ps:
         names = [n for n, _, _ in ps]
-        tys = [ref_name(t) if r else type_name(t) for _, t, r in ps]
+        tys = [_gname(t, g, r) for _, t, r in ps]
         if len(ps) == 1:
             head += " mit dem Parameter %s vom Typ %s," % (names[0], tys[0])
         else:
             head += " mit den Parametern %s und %s vom Typ %s und %s," % (", ".join(names[:-1]), names[-1], ", ".join(tys[:-1]), tys[-1])
     if f["ret"] == "N":
         head += " gibt nichts zurück, macht:"
+    elif g is not None and f["ret"] == g:
+        head += " gibt ein T zurück, macht:"
     else:
-        head += " gibt %s %s zurück, macht:" % (ein_akk(f["ret"]), type_name(f["ret"]))
+        head += " gibt %s %s zurück, macht:" % (ein_akk(f["ret"]), _gname(f["ret"], g))
     lines = [head] + pp_block(f["body"], 1, m, types)
     lines.append("Und kann so benutzt werden:")
     lines.append('\t"%s"' % " ".join([f["name"]] + ["<%s>" % n for n, _, _ in ps]))
     return lines
+
+
+def genericise(p, rng):
+    """the same program with some functions made generic in one of their parameter types: the
+    original is the monomorphic specialisation (T textually replaced by that type)"""
+    r = _R(rng)
+    q = dict(p)
+    funcs = []
+    n = 0
+    for f in p["funcs"]:
+        f = dict(f)
+        cands = []
+        for _, t, _ in f["params"]:
+            base = t[1] if is_list(t) else t
+            if base != "V" and base not in cands and not is_list(base):
+                cands.append(base)
+        if cands and r.chance(0.8):
+            f["generic"] = r.choice(cands)
+            n += 1
+        funcs.append(f)
+    q["funcs"] = funcs
+    q["generic_count"] = n
+    return q
 
 
 def _public(lines):
